@@ -12,7 +12,8 @@
     then after `run` (any fuel, grammar, context, world): a successful result
     hands back a lexer whose stored positions satisfy `P` and a value all of
     whose captured spans (`spanned`, at any depth) have both endpoints in `P`;
-    a returned error has every span and position field in `P`; and so has every
+    a returned error has every span and position field in `P` (and, if it is a
+    count error, reports fewer items than its minimum); and so has every
     error in the sink log afterwards.  With `P` = "canonical position of the
     text" (which the scanner preserves, C03) this is: every span in every
     returned or reported error and every captured span lies in the source, on
